@@ -481,8 +481,10 @@ class FileCache:
                         valid_entry = False
 
                     if not valid_entry:
-                        # remove the locally stored entry if not valid
-                        os.remove(filepath)
+                        # remove the locally stored entry if not valid (the file and
+                        # its entry: if the new download fails nothing may be left
+                        # that claims to be a cache hit)
+                        self._remove_item_from_cache(hashkey)
                     else:
                         valid_entry = True
                 else:
